@@ -32,17 +32,46 @@ struct Tx {
     dir: &'static str,
     addrs: Vec<Multiaddr>,
     opened: Option<Multiaddr>,
+    /// transports (0 = tcp, 1 = ws) on which an open() is outstanding
+    trs: Vec<usize>,
+    /// transport that carries the connection
+    ctr: usize,
+}
+
+fn is_ws(a: &Multiaddr) -> bool {
+    a.iter().any(|p| matches!(p, Protocol::Ws(_) | Protocol::Wss(_)))
+}
+fn trname(t: usize) -> &'static str {
+    if t == 0 { "t" } else { "w" }
+}
+fn trnum(v: Option<&Value>) -> usize {
+    match v.and_then(|t| t.as_str()) {
+        Some("w") => 1,
+        _ => 0,
+    }
 }
 
 impl World {
     fn new(max_in: i64, max_out: i64) -> Self {
+        Self::new_tr(max_in, max_out, false)
+    }
+    /// `two`: a second scripted transport is registered as WebSocket (addresses `<peer>w`, `<peer>x`)
+    fn new_tr(max_in: i64, max_out: i64, two: bool) -> Self {
         let lim = |x: i64| if x < 0 { None } else { Some(x as usize) };
-        let h = ManagerHarness::new(lim(max_in), lim(max_out), 2, vharness::shapes::listen_addrs());
+        let h = if two {
+            ManagerHarness::new_two(lim(max_in), lim(max_out), 2, vharness::shapes::listen_addrs())
+        } else {
+            ManagerHarness::new(lim(max_in), lim(max_out), 2, vharness::shapes::listen_addrs())
+        };
         let peers: Vec<(String, PeerId)> = PEERS.iter().map(|n| (n.to_string(), PeerId::random())).collect();
         let mut addrs = HashMap::new();
         for (i, (n, p)) in peers.iter().enumerate() {
             for (j, s) in ["a", "b", "c"].iter().enumerate() {
                 let a: Multiaddr = format!("/ip4/10.{}.{}.1/tcp/{}", i + 1, j + 1, 1000 + 10 * i + j).parse().unwrap();
+                addrs.insert(format!("{n}{s}"), a.with(Protocol::P2p((*p).into())));
+            }
+            for (j, s) in ["w", "x"].iter().enumerate() {
+                let a: Multiaddr = format!("/ip4/10.{}.{}.1/tcp/{}/ws", i + 1, j + 8, 2000 + 10 * i + j).parse().unwrap();
                 addrs.insert(format!("{n}{s}"), a.with(Protocol::P2p((*p).into())));
             }
         }
@@ -85,31 +114,46 @@ impl World {
             }
         }
         let mut calls = vec![];
-        for c in self.h.take_calls() {
+        let mut all: Vec<(usize, Call)> = vec![];
+        for tr in 0..self.h.transports() {
+            all.extend(self.h.take_calls_on(tr).into_iter().map(|c| (tr, c)));
+        }
+        for (tr, c) in all {
+            let trn = trname(tr);
             match c {
                 Call::Dial { cid, address, ok } => {
                     if ok {
-                        self.tx.insert(cid, Tx { st: "dialing", peer: stim_peer.into(), dir: "out", addrs: vec![address.clone()], opened: None });
+                        self.tx.insert(cid, Tx { st: "dialing", peer: stim_peer.into(), dir: "out", addrs: vec![address.clone()], opened: None, trs: vec![], ctr: tr });
                     }
-                    calls.push(json!({"c": "dial", "cid": cid, "addrs": [self.aname(&address)], "ok": ok}));
+                    calls.push(json!({"c": "dial", "cid": cid, "addrs": [self.aname(&address)], "ok": ok, "tr": trn}));
                 }
                 Call::Open { cid, addresses } => {
-                    self.tx.insert(cid, Tx { st: "opening", peer: stim_peer.into(), dir: "out", addrs: addresses.clone(), opened: None });
-                    calls.push(json!({"c": "open", "cid": cid, "addrs": addresses.iter().map(|a| self.aname(a)).collect::<Vec<_>>()}));
+                    match self.tx.get_mut(&cid) {
+                        // the same attempt handed to a second transport
+                        Some(t) if t.st == "opening" && !t.trs.contains(&tr) => {
+                            t.addrs.extend(addresses.iter().cloned());
+                            t.trs.push(tr);
+                        }
+                        _ => {
+                            self.tx.insert(cid, Tx { st: "opening", peer: stim_peer.into(), dir: "out", addrs: addresses.clone(), opened: None, trs: vec![tr], ctr: tr });
+                        }
+                    }
+                    calls.push(json!({"c": "open", "cid": cid, "addrs": addresses.iter().map(|a| self.aname(a)).collect::<Vec<_>>(), "tr": trn}));
                 }
                 Call::Negotiate { cid, ok } => {
                     if ok {
                         self.tx.get_mut(&cid).unwrap().st = "negotiating";
                     }
-                    calls.push(json!({"c": "negotiate", "cid": cid, "ok": ok}));
+                    calls.push(json!({"c": "negotiate", "cid": cid, "ok": ok, "tr": trn}));
                 }
                 Call::Cancel { cid } => {
                     if let Some(t) = self.tx.get_mut(&cid) {
-                        if t.st == "opening" {
+                        t.trs.retain(|x| *x != tr);
+                        if t.st == "opening" && t.trs.is_empty() {
                             t.st = "cancelled";
                         }
                     }
-                    calls.push(json!({"c": "cancel", "cid": cid}));
+                    calls.push(json!({"c": "cancel", "cid": cid, "tr": trn}));
                 }
                 Call::Accept { cid, ok } => {
                     if ok {
@@ -233,7 +277,8 @@ impl World {
                 t.st = "failed";
                 let addr = t.addrs[0].clone();
                 stim["p"] = json!(t.peer);
-                self.h.inject_dial_failure(cid.unwrap(), addr, ErrKind::Timeout);
+                let tr = t.ctr;
+                self.h.inject_dial_failure_on(tr, cid.unwrap(), addr, ErrKind::Timeout);
             }
             "established" => {
                 if !need(self, cid, &["dialing", "negotiating"]) {
@@ -243,7 +288,8 @@ impl World {
                 let t = self.tx[&c].clone();
                 // like the TCP transport, report the endpoint as <ip|dns>/tcp/<port> only
                 let full = t.opened.clone().unwrap_or_else(|| t.addrs[0].clone());
-                let addr: Multiaddr = full.iter().take(2).collect();
+                // (the WebSocket transport keeps the /ws component)
+                let addr: Multiaddr = full.iter().take(if t.ctr == 1 { 3 } else { 2 }).collect();
                 // the peer a TCP transport would authenticate: the one named right after /tcp
                 let peer = match self.h.dial_expected_peer(c) {
                     Some(Some(p)) => p,
@@ -257,17 +303,19 @@ impl World {
                     self.h.fail_accept_call(c);
                 }
                 self.tx.get_mut(&c).unwrap().st = "est";
-                self.h.inject_established(peer, c, false, addr);
+                self.h.inject_established_on(t.ctr, peer, c, false, addr);
             }
             "inbound" => {
-                let c = self.h.inject_pending_inbound();
+                let tr = trnum(s.get("tr")).min(self.h.transports() - 1);
+                let c = self.h.inject_pending_inbound_on(tr);
                 if let Some(want) = cid {
                     if want != c {
                         return None;
                     }
                 }
                 stim["c"] = json!(c);
-                self.tx.insert(c, Tx { st: "pin", peer: "?".into(), dir: "in", addrs: vec![], opened: None });
+                stim["tr"] = json!(trname(tr));
+                self.tx.insert(c, Tx { st: "pin", peer: "?".into(), dir: "in", addrs: vec![], opened: None, trs: vec![], ctr: tr });
             }
             "in_est" => {
                 if !need(self, cid, &["in_neg"]) {
@@ -280,8 +328,9 @@ impl World {
                 t.st = "est";
                 stim["dir"] = json!("in");
                 stim["mismatch"] = json!(false);
-                let addr: Multiaddr = format!("/ip4/172.16.0.{}/tcp/{}", c % 250 + 1, 40000 + c).parse().unwrap();
-                self.h.inject_established(p, c, true, addr);
+                let tr = t.ctr;
+                let addr: Multiaddr = format!("/ip4/172.16.0.{}/tcp/{}{}", c % 250 + 1, 40000 + c, if tr == 1 { "/ws" } else { "" }).parse().unwrap();
+                self.h.inject_established_on(tr, p, c, true, addr);
             }
             "in_drop" => {
                 if !need(self, cid, &["in_neg"]) {
@@ -310,13 +359,15 @@ impl World {
                 let c = cid.unwrap();
                 let addr = self.addrs[s["addr"].as_str().unwrap()].clone();
                 let t = self.tx.get_mut(&c).unwrap();
-                if !t.addrs.contains(&addr) {
+                let tr = is_ws(&addr) as usize;
+                if !t.addrs.contains(&addr) || !t.trs.contains(&tr) {
                     return None;
                 }
                 t.opened = Some(addr.clone());
                 t.st = "opened";
+                t.ctr = tr;
                 stim["p"] = json!(t.peer);
-                self.h.inject_opened(c, addr, vec![]);
+                self.h.inject_opened_on(tr, c, addr, vec![]);
             }
             "open_fail" => {
                 if !need(self, cid, &["opening"]) {
@@ -324,10 +375,22 @@ impl World {
                 }
                 let c = cid.unwrap();
                 let t = self.tx.get_mut(&c).unwrap();
-                t.st = "failed";
+                // the failing transport: the one named by the stimulus, else the first still opening
+                let tr = match s.get("tr") {
+                    Some(v) => trnum(Some(v)),
+                    None => *t.trs.first().unwrap_or(&0),
+                };
+                if !t.trs.contains(&tr) {
+                    return None;
+                }
+                t.trs.retain(|x| *x != tr);
+                if t.trs.is_empty() {
+                    t.st = "failed";
+                }
                 stim["p"] = json!(t.peer);
-                let errs = t.addrs.iter().map(|a| (a.clone(), ErrKind::Timeout)).collect();
-                self.h.inject_open_failure(c, errs);
+                stim["tr"] = json!(trname(tr));
+                let errs = t.addrs.iter().filter(|a| is_ws(a) as usize == tr).map(|a| (a.clone(), ErrKind::Timeout)).collect();
+                self.h.inject_open_failure_on(tr, c, errs);
             }
             "closed" => {
                 if !need(self, cid, &["live"]) {
@@ -378,12 +441,12 @@ impl World {
         for (n, _) in &self.peers {
             v.push(json!({"a": "dial", "p": n}));
             v.push(json!({"a": "hdial", "p": n}));
-            let s = ["a", "b", "c"][rng.gen_range(0..3)];
+            let s = if self.h.transports() == 2 { ["a", "b", "w", "x", "w"][rng.gen_range(0..5)] } else { ["a", "b", "c"][rng.gen_range(0..3)] };
             v.push(json!({"a": "dial_addr", "p": n, "addr": format!("{n}{s}")}));
             v.push(json!({"a": "add_known", "p": n, "addr": format!("{n}{s}")}));
             v.push(json!({"a": "hdial_addr", "p": n, "addr": format!("{n}{s}")}));
         }
-        v.push(json!({"a": "inbound"}));
+        v.push(json!({"a": "inbound", "tr": trname(rng.gen_range(0..self.h.transports()))}));
         for (c, t) in &self.tx {
             match t.st {
                 "dialing" => {
@@ -400,9 +463,12 @@ impl World {
                     }
                 }
                 "opening" => {
-                    v.push(json!({"a": "open_fail", "c": c}));
-                    let a = t.addrs.choose(rng).unwrap();
-                    v.push(json!({"a": "opened", "c": c, "addr": self.aname(a)}));
+                    let tr = *t.trs.choose(rng).unwrap();
+                    v.push(json!({"a": "open_fail", "c": c, "tr": trname(tr)}));
+                    let cand: Vec<&Multiaddr> = t.addrs.iter().filter(|a| t.trs.contains(&(is_ws(a) as usize))).collect();
+                    if let Some(a) = cand.choose(rng) {
+                        v.push(json!({"a": "opened", "c": c, "addr": self.aname(a)}));
+                    }
                 }
                 "in_neg" => {
                     let p = PEERS[rng.gen_range(0..PEERS.len())];
@@ -487,9 +553,9 @@ impl World {
     }
 }
 
-fn run_behaviour(b: usize, max_in: i64, max_out: i64, stims: &[Value], src: &str, probe: bool) -> (Vec<String>, bool) {
-    let mut w = World::new(max_in, max_out);
-    let mut out = vec![json!({"e": "reset", "b": b, "src": src, "maxIn": max_in, "maxOut": max_out}).to_string()];
+fn run_behaviour(b: usize, max_in: i64, max_out: i64, two: bool, stims: &[Value], src: &str, probe: bool) -> (Vec<String>, bool) {
+    let mut w = World::new_tr(max_in, max_out, two);
+    let mut out = vec![json!({"e": "reset", "b": b, "src": src, "maxIn": max_in, "maxOut": max_out, "two": two}).to_string()];
     let mut drift = false;
     for s in stims {
         match w.apply(s) {
@@ -574,8 +640,10 @@ fn run_shapes(b0: usize, rng: &mut StdRng, per_class: usize, out: &mut Vec<Strin
 fn run_random(b: usize, rng: &mut StdRng, len: usize) -> Vec<String> {
     let lims: [(i64, i64); 8] = [(-1, -1), (1, 1), (0, 1), (1, 0), (2, 1), (1, 2), (2, 2), (0, 0)];
     let (mi, mo) = lims[rng.gen_range(0..lims.len())];
-    let mut w = World::new(mi, mo);
-    let mut out = vec![json!({"e": "reset", "b": b, "src": "random", "maxIn": mi, "maxOut": mo}).to_string()];
+    // every third history runs with two transports (TCP + WebSocket)
+    let two = rng.gen_range(0..3) == 0;
+    let mut w = World::new_tr(mi, mo, two);
+    let mut out = vec![json!({"e": "reset", "b": b, "src": "random", "maxIn": mi, "maxOut": mo, "two": two}).to_string()];
     for _ in 0..len {
         let en = w.enabled(rng);
         // prefer delivering outcomes to issuing new requests
@@ -618,7 +686,8 @@ fn main() {
     if let Some(path) = args.get("behaviours") {
         for b in read_jsonl(path) {
             let stims = b["stims"].as_array().unwrap();
-            let (l, d) = run_behaviour(nb, b["maxIn"].as_i64().unwrap(), b["maxOut"].as_i64().unwrap(), stims, "tlc", true);
+            let two = b.get("two").and_then(|t| t.as_bool()).unwrap_or(false);
+            let (l, d) = run_behaviour(nb, b["maxIn"].as_i64().unwrap(), b["maxOut"].as_i64().unwrap(), two, stims, "tlc", true);
             drift += d as usize;
             lines.extend(l);
             nb += 1;
